@@ -174,6 +174,11 @@ class PVLDecoder(object):
         based on *value*.  Raises a ValueError otherwise.
         """
         # Returns int or real_cls
+        # Python's int() and float() accept more than the grammar does
+        # ("inf", "nan", "1_0", surrounding white space, non-ASCII digits).
+        if self.grammar.decimal_re.fullmatch(value) is None:
+            raise ValueError(f'The object "{value}" is not a decimal number.')
+
         try:
             return int(value, base=10)
         except ValueError:
